@@ -137,7 +137,7 @@ class Handlers:
             if cr:
                 b = cr[0]
                 continue
-            if b.kind == "fn":
+            if b.kind == "fn" or (b.kind == "assoc" and b.id in self.P.absorbed):
                 ctxs = []
                 for (cb, c) in self.callers(b):
                     i, _ = self.context(cb, seen)
@@ -171,7 +171,8 @@ class Handlers:
         out = set()
         for g in self.P.global_cell(body, t):
             gb = self.P.bodies[g[0]]
-            if g[1] == "param" and gb.kind == "fn" and depth < 3 and gb.raw.get("parent_kind") in ("Closure", "Fn", "AssocFn"):
+            if g[1] == "param" and depth < 3 and ((gb.kind == "fn" and gb.raw.get("parent_kind") in ("Closure", "Fn", "AssocFn"))
+                                                     or (gb.kind == "assoc" and gb.id in self.P.absorbed)):
                 cs = self.callers(gb)
                 if cs and g[2] - 1 < min(len(c.args) for (_, c) in cs):
                     for (cb, c) in cs:
@@ -360,12 +361,18 @@ def h_complete(P, E, H, scope=None):
             a = atom(c)
             if a == "sink_complete_force":
                 return True
-            if a in ("sink_complete", "abort"):
+            if a == "sink_complete":
                 return H.derived_from_param(b, c.args[1], hb, 2)
+            if a == "abort":
+                # dropping oneself is an answer only for a handler that completes downstream on another path (amb: the
+                # winner completes, a loser drops itself); a handler that can only drop itself never completes anything
+                return completes_somewhere and H.derived_from_param(b, c.args[1], hb, 2)
             if a == "subscribe":
                 return True
             return False
 
+        completes_somewhere = any(atom(c) in ("sink_complete", "sink_complete_force")
+                                  for x in [hb] + P.descendants(hb) for c in x.calls)
         eng = MustEngine(E, sat)
         ok = eng.holds(hb)
         nontrivial = len(hb.calls) > 0
